@@ -15,6 +15,23 @@ import pickle
 from . import batch as B, env, observe as O, refmodel as R, spec as S
 
 
+def _count_before_quantity(sp):
+    """In traversal order, is a Count reached through collections only, before any quantity-bearing node has
+    fixed the batch length?  (Trigger of the C03 known finding Count-before-quantity.scalar-weight.)"""
+    k = sp["k"]
+    if k == "Count":
+        return True
+    if k in S.COLLECTIONS:
+        for _, ch in S.children(sp):
+            r = _count_before_quantity(ch)
+            if r is True:
+                return True
+            if r is False:
+                return False
+        return None
+    return False
+
+
 class Member:
     __slots__ = ("obj", "items", "fillable", "origin", "tag", "pure")
 
@@ -44,6 +61,7 @@ class History:
         self.crit = S.critical_values(sp)
         self.has_transform = S.has_transform(sp)
         self.np_ok = profile.get("numpy", True)
+        self.scalar_np_ok = not _count_before_quantity(sp)
         self.pending = []  # scheduled perturbations [(kind, member index)]
         self.opts = dict(profile.get("gen", {}))
 
@@ -163,13 +181,25 @@ class History:
                 if r[f] != r[f]:
                     r[f] = 0.5
         ws = [self.rng.choice([1.0, 1.0, 0.5, 2.0, 0.0, 0.25, 3.0]) for _ in range(n)]
+        scalar = None
+        if self.scalar_np_ok and self.rng.random() < 0.35:
+            # scalar (or omitted) weight: only for trees that cannot meet the C03 known finding about a Count
+            # visited before any quantity-bearing node
+            scalar = self.rng.choice(["omitted", 1, 1.0, 2.0, 0.5])
+            ws = [1.0 if scalar == "omitted" else float(scalar)] * n
         bat = B.Batch(B.columns(recs), "dict")
         rows = B.rows(bat.saved, n)
-        desc = "%s.fill.numpy(%d rows, weights=%r)" % (m.tag, n, ws)
+        desc = "%s.fill.numpy(%d rows, weights=%r)" % (m.tag, n, ws if scalar is None else scalar)
         self.log.append(desc)
         before = self.texts()
         try:
-            m.obj.fill.numpy(bat.data, B.weights_array(ws))
+            if scalar is None:
+                m.obj.fill.numpy(bat.data, B.weights_array(ws))
+            elif scalar == "omitted":
+                m.obj.fill.numpy(bat.data)
+            else:
+                m.obj.fill.numpy(bat.data, scalar)
+            self.count("op:fillnp:scalar" if scalar is not None else "op:fillnp:array")
         except Exception as e:  # noqa: BLE001
             self.fail("fill.numpy raised %s: %s" % (type(e).__name__, str(e)[:200]), op=desc, rows=[[S.jsonable(r), w] for r, w in zip(rows, ws)])
             return
